@@ -391,9 +391,18 @@ pub fn run(prop: &str, seed: u64, nhist: usize, trace_path: Option<&str>, rep: &
         let fresh = dec1(&mut mk(), &e.payload);
         for cut in 0..e.payload.len() {
             let mut d = mk();
+            // (recorded like the random histories: after reset the projected state must be the one of a new object -
+            // Trace_RawReuse)
+            let mut evs: Vec<Option<String>> = vec![ev("new", json!({"kind": "lzma", "cprops": p.lc * 100 + p.lp * 10 + p.pb, "csize": enc_size(Some(n))}), proj1(&d))];
             let _ = dec1(&mut d, &e.payload[..cut]);
+            evs.push(ev("decompress", json!({}), proj1(&d)));
             d.reset(None);
+            evs.push(ev("reset", json!({"newsize": -1}), proj1(&d)));
             let r = dec1(&mut d, &e.payload);
+            evs.push(ev("decompress", json!({}), proj1(&d)));
+            if evs.iter().all(|x| x.is_some()) && r.0 != Verdict::Panic {
+                trace.extend(evs.into_iter().flatten());
+            }
             rep.eval(hash_of(&(pi, cut, "trunc-then-reset")), true);
             if r.0 == Verdict::Panic || (fresh.0 != Verdict::Panic && ((r.0 == Verdict::Ok) != (fresh.0 == Verdict::Ok) || (r.0 == Verdict::Ok && r.1 != fresh.1))) {
                 rep.violation(prop, format!("LzmaDecoder [decompress(first {} of {} bytes), reset(None), decompress(whole stream)]: {:?} {}, a new decoder gives {:?}", cut, e.payload.len(), r.0, r.2, fresh.0),
@@ -406,9 +415,16 @@ pub fn run(prop: &str, seed: u64, nhist: usize, trace_path: Option<&str>, rep: &
             let fresh = dec2(&mut Lzma2Decoder::new(), &s2);
             for cut in 0..s2.len() {
                 let mut d = Lzma2Decoder::new();
+                let mut evs: Vec<Option<String>> = vec![ev("new", json!({"kind": "lzma2", "cprops": 0, "csize": -2}), proj2(&d))];
                 let _ = dec2(&mut d, &s2[..cut]);
+                evs.push(ev("decompress", json!({}), proj2(&d)));
                 d.reset();
+                evs.push(ev("reset", json!({"newsize": -1}), proj2(&d)));
                 let r = dec2(&mut d, &s2);
+                evs.push(ev("decompress", json!({}), proj2(&d)));
+                if evs.iter().all(|x| x.is_some()) && r.0 != Verdict::Panic {
+                    trace.extend(evs.into_iter().flatten());
+                }
                 rep.eval(hash_of(&(pi, cut, "l2-trunc-then-reset")), true);
                 if r.0 == Verdict::Panic || (fresh.0 != Verdict::Panic && ((r.0 == Verdict::Ok) != (fresh.0 == Verdict::Ok) || (r.0 == Verdict::Ok && r.1 != fresh.1))) {
                     rep.violation(prop, format!("Lzma2Decoder [decompress(first {} of {} bytes), reset(), decompress(whole stream)]: {:?} {}, a new decoder gives {:?}", cut, s2.len(), r.0, r.2, fresh.0),
